@@ -96,7 +96,10 @@ pub fn case_random(c: &mut Choices, log: &mut CaseLog) -> CaseResult {
 
 /// Same with null-namespace types nested in namespaced ones (known finding class).
 pub fn case_null_ns(c: &mut Choices, log: &mut CaseLog) -> CaseResult {
-    let cfg = SgenCfg { node_budget: 20, null_ns_inside: true, same_simple_names: true, ..SgenCfg::decorated() };
+    // (not combined with shared simple names: a null-namespace type that is re-qualified with the
+    // enclosing namespace then collides with a type of that full name, and the parser recurses
+    // without bound - the known finding C10/process-killed/..., probed in a child process by run())
+    let cfg = SgenCfg { node_budget: 20, null_ns_inside: true, ..SgenCfg::decorated() };
     let node = gen_schema(c, &cfg);
     let text = render_text(&node);
     log.label("case");
@@ -204,6 +207,12 @@ pub fn dispatch(campaign: &str, c: &mut Choices, log: &mut CaseLog) -> Option<Ca
     }
 }
 
+/// What the library serializes for a well-formed schema with the types R4 ("namespace":""), a.b.R4
+/// and ns.R4 (found by the null_ns campaign on seed 5 when it also shared simple names across
+/// namespaces): the empty namespace is lost, so this text defines a.b.R4 twice, and parsing it
+/// recurses without bound.
+const CRASHING_SCHEMA: &str = r#"{"type":"record","namespace":"a.b","name":"e1","fields":[{"name":"a3","type":{"type":"record","name":"R4","fields":[{"name":"value5","type":{"type":"record","namespace":"a.b","name":"R4","fields":[{"name":"next7","type":{"type":"map","values":{"type":"fixed","namespace":"ns","name":"R4","size":8}},"default":{"avro.0":"ltUc4[(!"}}]},"default":{"next7":{"avro.0":"ltUc4[(!"}}},{"name":"f9","type":"a.b.R4","default":{"next7":{}}},{"name":"Z10","type":{"type":"array","items":"a.b.R4"},"default":[]}]},"default":{"Z10":[{"next7":{}},{"next7":{}}],"f9":{"next7":{}},"value5":{"next7":{}}}}]}"#;
+
 pub fn run(mut chk: Check) -> ! {
     chk.rule = "grid: bounded-exhaustive named-type grid {record,enum,fixed} x {no namespace, namespace attribute, dotted name, namespace \"\", same-as-outer} x 6 contexts x 5 decoration sets, and {14 logical type names} x {9 base types incl. disallowed ones} x 3 attribute sets x 2 contexts; \
         random: generated decorated schemas (docs with escapes, aliases, defaults of every JSON kind, custom attributes on every node, order, all logical types, nested/inherited/overridden namespaces, references); null_ns: the same with null-namespace types nested in namespaced records (known finding class). \
@@ -233,6 +242,21 @@ pub fn run(mut chk: Check) -> ! {
             }
         }
         chk.explicit("grid", &inputs, case_grid);
+        // known finding that kills the process: probed in a child so that the check survives it
+        if let Ok(exe) = std::env::current_exe() {
+            let st = std::process::Command::new(exe).args(["parse", CRASHING_SCHEMA]).env("VERIF_WORKER", "1").stdout(std::process::Stdio::null()).stderr(std::process::Stdio::null()).status();
+            let mut log = CaseLog::default();
+            log.label("crash_probe");
+            let r = match st {
+                Ok(s) if s.code().is_none() => Err(Fail::new(
+                    "C10/process-killed/null-namespace-type-requalified-onto-an-existing-name",
+                    "Schema::parse_str does not return: the process is killed (stack overflow in the resolution of field defaults)",
+                )
+                .with(Js::obj(vec![("schema", Js::str(CRASHING_SCHEMA))]))),
+                _ => Ok(()),
+            };
+            chk.absorb("crash_probe", &[0], log, r);
+        }
     }
     let n = chk.scale(400_000, 2_000_000);
     chk.campaign(CampaignCfg::new("random", n), case_random);
